@@ -37,6 +37,9 @@ def one(d, props_all, all_props):
         rc, out = sh(f"patch -p1 -s < {os.path.join(VERIF, 'seeded', d, 'patch.diff')}", cwd=scratch)
         if rc != 0:
             return f"{d}: patch does not apply: {out[:200]}"
+        sys.path.insert(0, os.path.join(VERIF, "tools"))
+        import stress
+        stressed = stress.stress_tree(scratch)
         props = props_all if all_props else sorted({meta["property"]} | set(meta.get("caught_by") or []) | set(meta.get("caught_now") or []))
         caught, und, why = [], [], {}
         for p in props:
@@ -51,7 +54,8 @@ def one(d, props_all, all_props):
         meta["refutations_now"] = why
         meta["checks_run_now"] = props
         meta["caught_by_target_property_check_now"] = meta["property"] in caught
-        json.dump(meta, open(mp, "w"), indent=1)
+        if not stressed:
+            json.dump(meta, open(mp, "w"), indent=1)
         return f"{d}: first run caught_by={meta.get('caught_by')}  now={caught}  undecided={und}"
     finally:
         shutil.rmtree(scratch, ignore_errors=True)
